@@ -3,8 +3,9 @@
 
    Reading guide.  [run_root (mk_root mode strict evt dst src nargs) sc] runs the model of
    Transitioner.Commit(evt, src, dst, args) (mode 1 = FairMQ, 0 = Direct; reply acceptance of
-   client.go:doTransition included; on the Go side entered through ControllableTask.Transition and
-   observed in the response document, which must pass Commit's result on unchanged) against the
+   client.go:doTransition included; on the Go side entered through the executor's message handler
+   and ControllableTask.Transition and observed in the MESSAGE sent to the core, which must pass
+   Commit's result on unchanged) against the
    simulated device, which starts in the device
    state that corresponds to [src]; [sc] gives one outcome (Done | Refused in place | ErrState |
    TLost request lost | TAfter performed, reply lost) per request that is actually issued, of any
@@ -164,18 +165,13 @@ Proof. exact table_is_behaviour. Qed.
 Print Assumptions C16_table_is_model.
 
 (* ---- up to the message the executor sends to the core.  What [o_final] / [o_err] stand for in
-   every theorem above is the "state" / "error" of the response DOCUMENT: h16 (and therefore
-   fmq_table and every case) enters through executable.NewTask -> ControllableTask.UnmarshalTransition
-   -> ControllableTask.Transition and reads the marshalled MesosCommandResponse_Transition, so
-   C16_table_is_model also says that Transition / PrepareResponse pass Commit's result on unchanged
-   for every execution of the domain.  The one step that is not executed is the message handler of
-   package executor (unexported, needs a live Mesos connection): the translator reads it on every
-   run - each response of <task>.Transition(cmd) there is only read, marshalled with json.Marshal
-   and handed to Message(..) as it is (data flow, not names; unexported helpers followed). ---- *)
-Theorem C16_handler_forwards_response :
-  transition_handler_forwards = true /\ (0 < transition_handler_sites)%N.
-Proof. exact handler_forwards. Qed.
-Print Assumptions C16_handler_forwards_response.
+   every theorem above is the "state" / "error" of the MESSAGE payload the executor sends: h16 (and
+   therefore fmq_table and every case) hands the MesosCommand_Transition document to the executor's
+   own message handler (executor.handleMessageEvent, run through the committed verif hook of that
+   package) with a real ControllableTask (executable.NewTask) as the active task, and reads what the
+   handler sends back.  So C16_table_is_model also says that the handler, UnmarshalTransition,
+   Transition and PrepareResponse pass Commit's result on unchanged, for every execution of the
+   domain; nothing on that path is read from the source text. ---- *)
 
 (* non-vacuity: concrete runs meeting the hypotheses above *)
 Example C16_nonvacuous :
